@@ -36,7 +36,7 @@ fn info(tier: Tier) -> CheckInfo {
         ),
         assumptions: vec!["in the tie case either address may win (map iteration order): both outcomes are accepted".into()],
     };
-    ci.rule.push_str(" Added: the public Info accessors must equal the node's state; every adaptive / public_ip timeline again with the application calling bootstrapped() at minutes 10 and 24. Also: a lone bootstrap server with an empty table as the node's only voter; without message loss the switch to server mode is due at the first refresh; the same timelines with a request filter that also vetoes the node's own public IP (the confirming self-ping is not a remote request).");
+    ci.rule.push_str(" Added: the public Info accessors must equal the node's state; every adaptive / public_ip timeline again with the application calling bootstrapped() at minutes 10 and 24. Also: a lone bootstrap server with an empty table as the node's only voter; without message loss the switch to server mode is due at the first refresh; the same timelines with a request filter that also vetoes the node's own public IP (the confirming self-ping is not a remote request). Read-only flags are spelled 1, 2, 255 and i32::MAX. Part e: two lookups that end in one loop iteration and disagree about the address (one answered by a lying peer only) - the node is a server by the second refresh whichever is processed last.");
     ci
 }
 
@@ -672,6 +672,112 @@ fn part_d(chooser: Chooser, nat: usize, votes: usize, conf: usize, faults: bool,
     (ch, out)
 }
 
+// ------------------------------------------------------------------------------------------ (e)
+/// Two lookups that end in the same loop iteration and disagree about the node's address: for
+/// target X only the lying peer answers (it reports W), for target Y the liar and two truthful
+/// peers answer (the majority reports the true address A); the fourth peer answers neither, so
+/// both lookups end when their requests to it expire. Whichever of the two the node processes
+/// last decides what it believes for now - but the address it pings must be the one it believes,
+/// and a reachable node is a server by the second refresh at the latest.
+fn part_e(pair: usize, swap: bool, out: &mut Partial) {
+    let mut w = World::new(Chooser::default_run());
+    let ip = Ipv4Addr::new(93, 184, 216, 34);
+    let ids = crate::epnet::ranked_ids(&T, 4);
+    let mut net = EpNet::new(&mut w, &ids);
+    let boots: Vec<SocketAddrV4> = net.addrs();
+    let a = w.add_node(NodeCfg::new(ip.octets(), 7000).bootstrap(&boots).id([0x21; 20]));
+    let ext = w.node_addr(a);
+    let liar = SocketAddrV4::new(Ipv4Addr::new(6, 6, 6, 6), 666);
+    let targets: [Id20; 2] = [[[0x3A; 20], [0xC5; 20]], [[0x71; 20], [0x8E; 20]]][pair % 2];
+    let (x, y) = if swap { (targets[1], targets[0]) } else { (targets[0], targets[1]) };
+    let start = w.now;
+    let mut issued = false;
+    let mut both_pending = false;
+    let mut ended_together = false;
+    let mut server_at: Option<u64> = None;
+    let mut next_sample = start;
+    let h = start + 35 * MIN;
+    loop {
+        if !issued && w.now >= start + 5 * MIN {
+            issued = true;
+            let _ = w.call_find_node(a, x.into());
+            let _ = w.call_find_node(a, y.into());
+        }
+        let stop = if issued { h } else { start + 5 * MIN };
+        let Some(ev) = w.step(stop) else {
+            if stop >= h {
+                break;
+            }
+            w.advance_to(stop);
+            continue;
+        };
+        match &ev {
+            Event::EndpointRecv { ep, dgram } => {
+                let i = net.index_of(*ep).expect("ep");
+                if let Some(q) = Krpc::parse(&dgram.bytes) {
+                    if q.is_query() {
+                        let t = q.query_target();
+                        // who answers what: X - the liar only; Y - the liar and peers 1, 2; peer 3
+                        // answers neither of the two
+                        let answers = if t == Some(x) {
+                            i == 0
+                        } else if t == Some(y) {
+                            i <= 2
+                        } else {
+                            true
+                        };
+                        if answers {
+                            if let Some(bytes) = net.honest_reply(i, &q, dgram.from, w.now) {
+                                let bytes = if i == 0 && (t == Some(x) || t == Some(y)) {
+                                    let (mut tree, _) = crate::bencode::decode(&bytes).expect("own reply");
+                                    tree.set("ip", B::bytes(krpc::compact_addr(&liar)));
+                                    crate::bencode::encode(&tree)
+                                } else {
+                                    bytes
+                                };
+                                let from = net.eps[i].addr;
+                                w.send_raw(from, dgram.from, bytes);
+                            }
+                        }
+                    }
+                }
+            }
+            Event::Iter { node } if *node == a && issued && !ended_together => {
+                let s = w.snapshot(a);
+                let pending = s.core.iterative_queries.iter().filter(|q| *q.target.as_bytes() == x || *q.target.as_bytes() == y).count();
+                if pending == 2 {
+                    both_pending = true;
+                } else if both_pending && pending == 0 {
+                    ended_together = true;
+                } else if pending == 1 {
+                    both_pending = false;
+                }
+            }
+            _ => {}
+        }
+        if w.now >= next_sample {
+            next_sample = w.now + 10 * SEC;
+            let s = w.snapshot(a);
+            if s.core.server_mode && server_at.is_none() {
+                server_at = Some(w.now - start);
+            }
+        }
+    }
+    out.add("executions", 1);
+    out.add("transitions", w.steps);
+    out.add("two_lookups_ended_in_one_iteration", ended_together as u64);
+    let s = w.snapshot(a);
+    let ctx = format!("adaptive reachable node; at minute 5 two lookups, one answered by a lying peer only, one by the liar and two truthful peers, both ending when their requests to a silent peer expire ({}in one loop iteration)", if ended_together { "" } else { "NOT " });
+    if server_at.map(|t| t > 30 * MIN + 30 * SEC).unwrap_or(true) || s.core.firewalled || s.core.public_address != Some(ext) {
+        out.violation(
+            "no-switch-to-server/two-lookups-end-in-one-iteration",
+            format!("{ctx}: server mode reached at {:?} min, firewalled = {}, public_address = {:?} (true address {ext}) after 35 minutes", server_at.map(|t| t / MIN), s.core.firewalled, s.core.public_address),
+            json!({"part": "e", "pair": pair, "swap": swap}),
+        );
+    }
+    out.outcomes.insert(format!("two-lookups:pair{pair}:swap{swap}:together={ended_together}:server@{:?}", server_at.map(|t| t / MIN)));
+}
+
 fn run(tier: Tier, shard: usize, nshards: usize, _seed: u64) -> Partial {
     let mut out = Partial::default();
     let mut unit = 0usize;
@@ -771,6 +877,14 @@ fn run(tier: Tier, shard: usize, nshards: usize, _seed: u64) -> Partial {
             }
         }
     }
+    // (e)
+    for pair in 0..2 {
+        for swap in [false, true] {
+            if mine() {
+                part_e(pair, swap, &mut out);
+            }
+        }
+    }
     out.witness("client requests were observed", out.count("client_requests_seen") > 0 || shard != 0);
     out.sample(json!({"part": "d", "conf": "adaptive", "nat": "reachable", "votes": "one-liar", "horizon_min": 35}));
     out.sample(json!({"part": "c", "lookup": "get_peers", "ro_mask": 5}));
@@ -786,6 +900,7 @@ fn replay(v: &Value) -> Result<Option<Violation>, String> {
             part_a(&[(label, bytes)], &mut out)
         }
         Some("b") => part_b(&mut out),
+        Some("e") => part_e(v.get("pair").and_then(|x| x.as_u64()).unwrap_or(0) as usize, v.get("swap").and_then(|x| x.as_bool()).unwrap_or(false), &mut out),
         Some("c") => part_c(v.get("kind").and_then(|x| x.as_u64()).ok_or("kind")? as usize, v.get("ro_mask").and_then(|x| x.as_u64()).ok_or("mask")? as u8, &mut out),
         Some("c-put") => part_c_put(v.get("kind").and_then(|x| x.as_u64()).ok_or("kind")? as usize, v.get("ro_mask").and_then(|x| x.as_u64()).ok_or("mask")? as u8, &mut out),
         Some("d") => {
